@@ -327,7 +327,7 @@ def simStep (s : PSim) (i : Nat) (label : String) (ents ahead : List (List Strin
     let s := { s with c := { s.c with base := b } }
     pure (setPc s i (if ex then .fin n false else .enq n), [.updateX])
   | "enqueue_cutset", .enq n =>
-    let (b, rest) ← readEnqueue ents s.cfg.nodup s.c.base n.ub
+    let (b, rest) ← readEnqueue ents s.cfg.nodup s.c.base
     if rest != [] then throw "enqueue_cutset: extra calls"
     if b.crashed then throw "enqueue_cutset: open_by_layer index out of range in the model"
     pure (setPc { s with c := { s.c with base := b } } i (.fin n false), [.enqueue])
